@@ -470,7 +470,17 @@ func (r *dqRun) recover(x *Exec, s *simrt.Sim) {
 	nFresh := 1 + r.crashAt%3
 	var fresh [][]byte
 	for i := 0; i <= nFresh; i++ {
-		fresh = append(fresh, []byte(fmt.Sprintf("PROBE-after-crash-%d-%d-%s", r.crashAt, i, strings.Repeat("p", (r.crashAt*7+i*13)%40))))
+		m := []byte(fmt.Sprintf("PROBE-after-crash-%d-%d-%s", r.crashAt, i, strings.Repeat("p", (r.crashAt*7+i*13)%40)))
+		if r.crashAt%2 == 0 && H+i < len(E) && len(E[H+i]) > 0 {
+			// as long as the message of the old incarnation it may come to lie on: a stale record behind it then stays well-formed
+			pre := fmt.Sprintf("P%d.%d|", r.crashAt, i)
+			m = m[:0]
+			for len(m) < len(E[H+i]) {
+				m = append(m, pre...)
+			}
+			m = m[:len(E[H+i])]
+		}
+		fresh = append(fresh, m)
 	}
 	put := func(m []byte) bool {
 		putOK := false
